@@ -411,45 +411,53 @@ func TestCrossProcess(t *testing.T) {
 	if self == "" {
 		self = os.Args[0]
 	}
-	n := 400
+	// several pairs of processes with few cases each rather than one long pair: what is decided by the FIRST
+	// use in a process gets one chance per pair
+	n, pairs := 100, 8
 	if vlib.Thorough() {
-		n = 6000
+		n, pairs = 1500, 32
 	}
-	seed := os.Getenv("VERIF_SEED")
-	if seed == "" || seed == "0" {
-		seed = "1"
+	base := os.Getenv("VERIF_SEED")
+	if base == "" || base == "0" {
+		base = "1"
 	}
 	dir := t.TempDir()
-	run := func(mode string) []string {
-		out := filepath.Join(dir, mode+".txt")
-		cmd := exec.Command(self, "-test.run", "^TestCrossProcessChild$", "-test.count", "1", "-rapid.checks", fmt.Sprint(n), "-rapid.seed", seed, "-rapid.nofailfile")
-		cmd.Env = append(os.Environ(), "C09_MODE="+mode, "C09_OUT="+out, "VERIF_STATS=", "VERIF_CHILD=")
-		if b, err := cmd.CombinedOutput(); err != nil {
-			t.Fatalf("C09 cross-process child (%s) failed: %v\n%s", mode, err, b)
+	total := 0
+	for pair := 0; pair < pairs; pair++ {
+		seed := fmt.Sprintf("%s%03d", base, pair+1)
+		run := func(mode string) []string {
+			out := filepath.Join(dir, mode+".txt")
+			cmd := exec.Command(self, "-test.run", "^TestCrossProcessChild$", "-test.count", "1", "-rapid.checks", fmt.Sprint(n), "-rapid.seed", seed, "-rapid.nofailfile")
+			cmd.Env = append(os.Environ(), "C09_MODE="+mode, "C09_OUT="+out, "VERIF_STATS=", "VERIF_CHILD=")
+			if b, err := cmd.CombinedOutput(); err != nil {
+				t.Fatalf("C09 cross-process child (%s) failed: %v\n%s", mode, err, b)
+			}
+			data, err := os.ReadFile(out)
+			if err != nil {
+				t.Fatalf("harness: %v", err)
+			}
+			return strings.Split(strings.TrimSpace(string(data)), "\n")
 		}
-		data, err := os.ReadFile(out)
-		if err != nil {
-			t.Fatalf("harness: %v", err)
+		alone, hist := run("alone"), run("history")
+		if len(alone) != len(hist) || len(alone) < n {
+			t.Fatalf("harness: the two child processes produced %d and %d probe records for %d cases", len(alone), len(hist), n)
 		}
-		return strings.Split(strings.TrimSpace(string(data)), "\n")
-	}
-	alone, hist := run("alone"), run("history")
-	if len(alone) != len(hist) || len(alone) < n {
-		t.Fatalf("harness: the two child processes produced %d and %d probe records for %d cases", len(alone), len(hist), n)
-	}
-	for i := range alone {
-		if alone[i] != hist[i] {
-			var a, h []byte
-			fmt.Sscanf(alone[i], "%x", &a)
-			fmt.Sscanf(hist[i], "%x", &h)
-			vlib.Discrep(t, "C09/cross-process", "C09 case #%d of seed %s: the probe printed by a process that ran no history differs from the one printed after the histories:\n  %q\n  %q", i, seed, a, h)
-			break
+		for i := range alone {
+			if alone[i] != hist[i] {
+				var a, h []byte
+				fmt.Sscanf(alone[i], "%x", &a)
+				fmt.Sscanf(hist[i], "%x", &h)
+				vlib.Discrep(t, "C09/cross-process", "C09 case #%d of seed %s: the probe printed by a process that ran no history differs from the one printed after the histories:\n  %q\n  %q", i, seed, a, h)
+				break
+			}
 		}
-	}
-	vlib.Case("TestCrossProcess", fmt.Sprintf("seed-%s-%d", seed, n), "cross-process")
-	vlib.Case("TestCrossProcess", fmt.Sprintf("seed-%s-lines-%d", seed, len(alone)), "cross-process")
-	vlib.Extra("cross_process_probe_pairs", len(alone))
-	vlib.Sample("TestCrossProcess", map[string]any{"seed": seed, "cases": n, "first_probe_hex_prefix": alone[0][:min(80, len(alone[0]))]})
+		vlib.Case("TestCrossProcess", fmt.Sprintf("seed-%s-%d", seed, n), "cross-process")
+		total += len(alone)
+		if vlib.WantSample("TestCrossProcess") {
+			vlib.Sample("TestCrossProcess", map[string]any{"seed": seed, "cases": n, "first_probe_hex_prefix": alone[0][:min(80, len(alone[0]))]})
+		}
+	} // pair
+	vlib.Extra("cross_process_probe_pairs", total)
 }
 
 var regCounter = 5000
